@@ -134,6 +134,9 @@ func (s *scStart) Configure(w *World) {
 	}
 	b := w.cl.buckets[c.Bucket]
 	fileAll := t.Draw(2, nil) == 1
+	if s.prop == "C02" && c.Metadata == "file" && t.Draw(4, nil) == 0 {
+		s.fault = "file-read-error" // C02 too: a checkpoint file that exists but cannot be read must not be taken for "no checkpoint"
+	}
 	if s.fault == "file-read-error" {
 		fileAll = true
 		w.disk.failRead = Pick(t, []string{"eio", "eacces", "emfile"}, nil)
